@@ -53,10 +53,10 @@ Definition mutate_directory (f : fs) (m : mutation) : fres fs :=
 
 Definition ensure_parent (f : fs) (p : path) : fres fs := mkdirall maxl f (pdir p) mut_parent_perm.
 
-(* mutateEmptyFile's [target]: mut.Path as written today (a trailing slash then
-   makes filepath.Dir keep every component and filepath.Base repeat the last
-   one: finding C13-F6), filepath.Clean(mut.Path) once fixes/C13-F6.patch is in;
-   which of the two is read from the source *)
+(* mutateEmptyFile's [target]: filepath.Clean(mut.Path) since fix 10a6051 (was
+   finding C13-F6: with mut.Path as written, a trailing slash makes filepath.Dir
+   keep every component and filepath.Base repeat the last one); which of the two
+   the source says is read by goextract on every run *)
 Definition empty_file_target (s : string) : path :=
   if empty_file_path_cleaned then pclean (path_of s) else path_of s.
 Definition mutate_empty_file (f : fs) (m : mutation) : fres fs :=
